@@ -1,11 +1,166 @@
-(* C11 - BitStorage: property theorems only.  Model: Model/C11.v; proofs: Proofs/C11*.v *)
+(* C11 - BitStorage: property theorems only.  Model and specification: Model/C11.v;
+   proofs: Proofs/C11.v, C11_laws.v, C11_pack.v, C11_wire.v.
+   wf st  = a storage as NewBitStorage / Fix leave it: 1 <= bits <= 63 (the property asks 1..32),
+            vpl = 64/bits, mask = 2^bits-1, length >= 0, len(data) = ceil(length/vpl), longs < 2^64.
+   abs st = unpack bits length data : the array the longs denote (value j = bits (j mod vpl)*b ..
+            of long j / vpl), written with / and mod only. *)
 From Coq Require Import List NArith ZArith.
-From GoMC Require Import Base.Bytes Base.Dec Model.C05 Model.C11 Proofs.C11.
+From GoMC Require Import Base.Bytes Base.Dec Model.C05 Model.C11
+  Proofs.C11 Proofs.C11_laws Proofs.C11_pack Proofs.C11_wire.
 Import ListNotations.
 Open Scope N_scope.
 
+(* ALL histories of Get/Set/Swap with 64-bit int arguments on ANY well-formed storage (any initial
+   longs, padding bits set or not): the outcomes - values, panics and their kind - are those of a
+   checked array of n unsigned b-bit integers, the final longs denote the final array (so no other
+   index ever changes), and the storage stays well formed with the same width and length *)
+Theorem C11_histories : forall ops st, wf st -> Forall op_ints ops ->
+  wf (fst (bs_run st ops)) /\ bits (fst (bs_run st ops)) = bits st /\ blen (fst (bs_run st ops)) = blen st /\
+  spec_run (wbits st) (abs st) ops = (abs (fst (bs_run st ops)), snd (bs_run st ops)).
+Proof. exact run_refines. Qed.
+
+(* pointwise: Get after Set *)
+Theorem C11_get_set : forall st i v j, wf st ->
+  (0 <= i < blen st)%Z -> (0 <= v < 2 ^ bits st)%Z -> (0 <= j < blen st)%Z ->
+  snd (bs_get (fst (bs_set st i v)) j) = if (i =? j)%Z then ORet v else snd (bs_get st j).
+Proof. exact get_set. Qed.
+
+(* Swap = Set + the previous Get, for every storage and every argument *)
+Theorem C11_swap : forall st i v,
+  bs_swap st i v = (fst (bs_set st i v),
+                    match snd (bs_set st i v) with OUnit => snd (bs_get st i) | r => r end).
+Proof. exact swap_is_set_get. Qed.
+
+(* initial contents *)
+Theorem C11_init_zero : forall bts n, (1 <= bts <= 63)%Z -> (0 <= n)%Z ->
+  exists st, bs_new bts n None = ROk st /\ wf st /\ bits st = bts /\ blen st = n /\
+             abs st = repeat 0 (Z.to_nat n) /\ data st = repeat 0 (Z.to_nat (size_of bts n)).
+Proof. exact new_zero. Qed.
+Theorem C11_init_raw : forall bts n raw, (1 <= bts <= 63)%Z -> (0 <= n)%Z ->
+  bs_new bts n (Some raw) =
+  if (Z.of_nat (length raw) =? size_of bts n)%Z
+  then ROk (mkBS raw (mk_mask bts) bts n (Z.quot 64 bts)) else RPanic pNew.
+Proof. exact new_raw. Qed.
+Theorem C11_init_raw_wf : forall bts n raw, (1 <= bts <= 63)%Z -> (0 <= n)%Z ->
+  Z.of_nat (length raw) = size_of bts n -> Forall (fun l => l < 2^64) raw ->
+  wf (mkBS raw (mk_mask bts) bts n (Z.quot 64 bts)) /\
+  abs (mkBS raw (mk_mask bts) bts n (Z.quot 64 bts)) = unpack (Z.to_N bts) (Z.to_nat n) raw.
+Proof. intros. split; [apply new_wf; auto | reflexivity]. Qed.
+
+(* rejected calls: a panic leaves the identical storage (any storage), and on a well-formed storage
+   a call panics exactly when its index or value is out of range *)
+Theorem C11_reject_unchanged : forall st o w, snd (bs_step st o) = OPanic w -> fst (bs_step st o) = st.
+Proof. exact panic_unchanged. Qed.
+Theorem C11_reject_iff : forall st o, wf st -> op_ints o ->
+  is_panic (snd (bs_step st o)) = negb (valid_op (wbits st) (blen st) o).
+Proof. exact rejected_iff. Qed.
+
+(* bits = 0 *)
+Theorem C11_b0 : forall n raw, exists st, bs_new 0 n raw = ROk st /\ blen st = n /\
+  forall i v, bs_get st i = (st, ORet 0%Z) /\ bs_set st i v = (st, OUnit) /\ bs_swap st i v = (st, ORet 0%Z).
+Proof. intros. eexists. split; [apply b0_new|]. split; [reflexivity|]. apply b0_ops. reflexivity. Qed.
+
+(* packing specification: pack and unpack are inverse *)
+Theorem C11_unpack_pack : forall b vals, 1 <= b <= 64 -> Forall (fun v => v < 2 ^ b) vals ->
+  unpack b (length vals) (pack b vals) = vals.
+Proof. exact unpack_pack. Qed.
+Theorem C11_pack_unpack : forall b n raw, 1 <= b <= 64 -> length raw = spec_size b n -> clean b n raw ->
+  pack b (unpack b n raw) = raw.
+Proof. exact pack_unpack_clean. Qed.
+
+(* Raw() of a storage built from nil data by ANY history is the 1.16+ packing of its contents *)
+Theorem C11_raw : forall bts n ops st0, (1 <= bts <= 63)%Z -> (0 <= n)%Z -> Forall op_ints ops ->
+  bs_new bts n None = ROk st0 ->
+  data (fst (bs_run st0 ops)) = pack (Z.to_N bts) (abs (fst (bs_run st0 ops))).
+Proof. exact raw_is_pack. Qed.
+
+(* the raw longs are accepted back and give the identical storage *)
+Theorem C11_accept_back : forall st, wf st -> bs_new (bits st) (blen st) (Some (data st)) = ROk st.
+Proof. exact accept_back. Qed.
+
+(* wire round trip followed by Fix, into ANY destination storage of the same length, with ANY
+   bytes following: the identical storage comes back, exactly the image is consumed, the byte count
+   is right *)
+Theorem C11_wire : forall st d rest, wf st -> lenN (data st) < 2^31 -> blen d = blen st ->
+  exists d', run_flat (bs_read d) (fst (bs_write st) ++ rest) = FOk (d', snd (bs_write st)) rest /\
+             snd (bs_write st) = lenN (fst (bs_write st)) /\
+             bs_fix d' (bits st) = (st, OUnit).
+Proof. exact wire_roundtrip. Qed.
+Theorem C11_read_robust : forall d, robust (bs_read d).
+Proof. exact read_robust. Qed.
+Theorem C11_read_total : forall d s, ok_or_err (run_flat (bs_read d) s).
+Proof. exact read_total. Qed.
+
+(* size rules: calcBitStorageSize is the length of the packing; any other raw length is refused by
+   the constructor (panic) and by Fix (error) *)
+Theorem C11_size : forall bts n, (1 <= bts <= 63)%Z -> (0 <= n)%Z ->
+  calc_size bts n = Some (size_of bts n) /\
+  size_of bts n = Z.of_nat (spec_size (Z.to_N bts) (Z.to_nat n)) /\
+  forall vals, length vals = Z.to_nat n -> length (pack (Z.to_N bts) vals) = Z.to_nat (size_of bts n).
+Proof.
+  intros bts n Hb Hn. split; [apply calc_size_ok; auto|]. split; [apply size_of_spec; auto|].
+  intros vals Hl. rewrite pack_length, Hl, size_of_spec by auto. symmetry. apply Nat2Z.id.
+Qed.
+Theorem C11_size_refused_new : forall bts n raw, (1 <= bts <= 63)%Z -> (0 <= n)%Z ->
+  Z.of_nat (length raw) <> size_of bts n -> bs_new bts n (Some raw) = RPanic pNew.
+Proof.
+  intros bts n raw Hb Hn Hne. rewrite new_raw by auto.
+  destruct (Z.eqb_spec (Z.of_nat (length raw)) (size_of bts n)); [contradiction|reflexivity].
+Qed.
+Theorem C11_size_refused_fix : forall st bts, (1 <= bts <= 63)%Z -> (0 <= blen st)%Z ->
+  snd (bs_fix st bts) = if (Z.of_nat (length (data st)) =? size_of bts (blen st))%Z then OUnit else OErr.
+Proof. intros st bts Hb Hn. rewrite fix_result by auto. reflexivity. Qed.
+
+(* calcBitsPerValue does NOT recover the width in general (not a C11 clause; consequences are C12/C13) *)
 Theorem C11_infer_refuted : exists b n : Z, (1 <= b <= 32)%Z /\ (0 < n)%Z /\
   match calc_size b n with Some s => calc_bits n s <> Some b | None => False end.
 Proof. exact infer_refuted. Qed.
+Theorem C11_infer_partial : forall b n, (1 <= b <= 63)%Z -> (0 < n)%Z -> (n mod Z.quot 64 b = 0)%Z ->
+  exists s, calc_size b n = Some s /\ calc_bits n s = Some (Z.quot 64 (Z.quot 64 b)).
+Proof. exact infer_partial. Qed.
 
+(* ---------- non-vacuity ---------- *)
+Definition ex_st : bstore := mkBS [0xFFFFFFFFFFFFFFFF; 0x123456789ABCDEF0] (mk_mask 5) 5 13 12.
+Example C11_ex_wf : wf ex_st.
+Proof.
+  constructor; cbn; try reflexivity; try (split; discriminate); try discriminate.
+  repeat constructor.
+Qed.
+Example C11_ex_abs : abs ex_st = [31;31;31;31;31;31;31;31;31;31;31;31;16].
+Proof. vm_compute. reflexivity. Qed.
+Example C11_ex_history :
+  snd (bs_run ex_st [ASet 12 7; AGet 12; AGet 11; ASwap 0 32; ASwap 0 1; AGet 13; AGet (-1)])
+  = [OUnit; ORet 7; ORet 31; OPanic pVal; ORet 31; OPanic pIdx; OPanic pIdx]%Z
+  /\ Forall op_ints [ASet 12 7; AGet 12; AGet 11; ASwap 0 32; ASwap 0 1; AGet 13; AGet (-1)]%Z.
+Proof. split; [vm_compute; reflexivity|]. repeat constructor; vm_compute; discriminate. Qed.
+Example C11_ex_clean : clean 5 13 (repeat 0 2) /\ length (repeat 0 2) = spec_size 5 13 /\
+  pack 5 [1;2;3;4;5;6;7;8;9;10;11;12;13] = [445092485129178177; 13] /\
+  unpack 5 13 [445092485129178177; 13] = [1;2;3;4;5;6;7;8;9;10;11;12;13].
+Proof. split; [apply clean_zero|]. split; [reflexivity|]. split; vm_compute; reflexivity. Qed.
+Example C11_ex_wire : lenN (data ex_st) < 2^31 /\
+  fst (bs_write ex_st) = [2; 255;255;255;255;255;255;255;255; 0x12;0x34;0x56;0x78;0x9A;0xBC;0xDE;0xF0].
+Proof. split; vm_compute; reflexivity. Qed.
+Example C11_ex_infer : (64 mod Z.quot 64 4 = 0)%Z /\ Z.quot 64 (Z.quot 64 4) = 4%Z.
+Proof. split; reflexivity. Qed.
+
+Print Assumptions C11_histories.
+Print Assumptions C11_get_set.
+Print Assumptions C11_swap.
+Print Assumptions C11_init_zero.
+Print Assumptions C11_init_raw.
+Print Assumptions C11_init_raw_wf.
+Print Assumptions C11_reject_unchanged.
+Print Assumptions C11_reject_iff.
+Print Assumptions C11_b0.
+Print Assumptions C11_unpack_pack.
+Print Assumptions C11_pack_unpack.
+Print Assumptions C11_raw.
+Print Assumptions C11_accept_back.
+Print Assumptions C11_wire.
+Print Assumptions C11_read_robust.
+Print Assumptions C11_read_total.
+Print Assumptions C11_size.
+Print Assumptions C11_size_refused_new.
+Print Assumptions C11_size_refused_fix.
 Print Assumptions C11_infer_refuted.
+Print Assumptions C11_infer_partial.
